@@ -241,7 +241,10 @@ def gl2(prog, getfn):
             gt = g.terms
             for (bb, pt, val, line) in gt.stores:
                 pt_, v_ = strip(pt), strip(val)
-                if not (mir.is_call(pt_, "index_mut") and not show(pt_[2][0]).endswith(".tbl") and "arg1." not in show(pt_[2][0])):
+                swapped = show(pt_[2][0]).endswith("arg1.tbl") and any(
+                    c.callee.name in ("replace", "take") and "mem" in c.callee.key() and c.args and show(c.args[0]).endswith("arg1.tbl")
+                    for c in gt.calls) if mir.is_call(pt_, "index_mut") else False
+                if not (mir.is_call(pt_, "index_mut") and (swapped or (not show(pt_[2][0]).endswith(".tbl") and "arg1." not in show(pt_[2][0])))):
                     continue
                 if not (v_[0] == "agg" and v_[3] == "Some" and len(v_[4]) == 1):
                     continue
@@ -261,7 +264,18 @@ def gl2(prog, getfn):
                     newcap = [strip(v2) for g2 in bodies for (_, p2, v2, _) in g2.terms.stores
                               if strip(p2)[0] == "field" and strip(p2)[2] == "cap" and "arg1" in show(strip(p2)[1])]
                     slot_calls = [x for x in [idx] + list(mir.subterms(idx)) if mir.is_call(x) and x[1].local and len(x[2]) == 2]
-                    if newcap and slot_calls and strip(slot_calls[0][2][1]) != newcap[0]:
+                    # a slot helper that is handed the table reads the capacity itself: the new capacity must have been stored
+                    # before the entries are placed
+                    via_self = bool(slot_calls) and strip_refs(strip(slot_calls[0][2][0])) == ("param", 1)
+                    if swapped or via_self:
+                        cap_bbs = [b2 for g2 in bodies for (b2, p2, v2, _) in g2.terms.stores
+                                   if g2 is g and strip(p2)[0] == "field" and strip(p2)[2] == "cap" and "arg1" in show(strip(p2)[1])]
+                        if not cap_bbs or not all(bb in g.cfg.reachable_from(cb) and cb not in g.cfg.reachable_from(bb) for cb in cap_bbs):
+                            errs.append("grow places the entries with a helper that reads self.cap, but the new capacity is not stored "
+                                        "before the entries are placed: get looks for them at the slot of the new capacity")
+                        else:
+                            moved_ok = True
+                    elif newcap and slot_calls and strip(slot_calls[0][2][1]) != newcap[0]:
                         errs.append("grow places the entries for capacity %s while the table's capacity becomes %s: get looks for them "
                                     "at the slot of the new capacity" % (show(slot_calls[0][2][1])[:30], show(newcap[0])[:30]))
                     else:
